@@ -269,6 +269,10 @@ pub fn gen_template(rng: &mut Rng, tag: &str, with_type: bool) -> Value {
             _ => json!({"k": "ref", "i": col(rng)}),
         });
     }
+    if rng.chance(1, 4) {
+        // literal text after the last reference
+        parts.push(json!({"k": "lit", "v": if rng.chance(1, 2) { ">" } else { "]x" }}));
+    }
     Value::Array(parts)
 }
 
@@ -379,13 +383,28 @@ fn corpus_event(lines: &Vec<Vec<String>>, final_nl: bool, extra: Value) -> Value
             for ex in c.iter() {
                 ex.write(&mut buf).unwrap();
             }
+            // the same through a writer that takes at most 7 bytes per call (std::io::Write allows that)
+            struct Short(Vec<u8>);
+            impl std::io::Write for Short {
+                fn write(&mut self, b: &[u8]) -> std::io::Result<usize> {
+                    let n = b.len().min(7);
+                    self.0.extend_from_slice(&b[..n]);
+                    Ok(n)
+                }
+                fn flush(&mut self) -> std::io::Result<()> { Ok(()) }
+            }
+            let mut sw = Short(vec![]);
+            for ex in c.iter() {
+                ex.write(&mut sw).unwrap();
+            }
+            let short_same = sw.0 == buf;
             let written = String::from_utf8(buf).unwrap();
             let wl: Vec<Vec<String>> = written.lines().map(|l| l.split('\t').map(|p| p.to_string()).collect()).collect();
             let ends_nl = written.is_empty() || written.ends_with('\n');
             // and parse the written text once more
             let again = Corpus::from_reader(written.as_bytes()).map(|c2| c2.iter().map(|ex| Value::Array(ex.tokens().iter().map(|w| json!({"s": w.surface(), "f": w.feature()})).collect())).collect::<Vec<_>>());
             json!({"ev": "corpus", "lines": lines, "ok": true, "examples": examples, "written": wl, "written_nl": ends_nl,
-                   "reparse_ok": again.is_ok(), "reparsed": again.unwrap_or_default(), "extra": extra})
+                   "reparse_ok": again.is_ok(), "reparsed": again.unwrap_or_default(), "extra": extra, "short_same": short_same})
         }
         Ok(Err(_)) => json!({"ev": "corpus", "lines": lines, "ok": false, "examples": [], "written": [], "written_nl": true, "reparse_ok": true, "reparsed": [], "extra": extra}),
         Err(_) => json!({"ev": "panic", "op": {"op": "corpus"}, "lines": lines}),
@@ -505,6 +524,12 @@ fn w8_text(w8: i64, style: usize) -> String {
 }
 
 fn expand_tpl(t: &Value, feats: &[String]) -> Option<String> {
+    expand_tpl_ext(t, feats, false)
+}
+
+/// `force`: optional references are expanded like plain ones - the text a template would produce if
+/// its suppression ("no feature when an optional reference is '*'") were ignored.
+fn expand_tpl_ext(t: &Value, feats: &[String], force: bool) -> Option<String> {
     // the harness' own rendering of an expansion - used ONLY to produce model.def lines that hit
     let mut s = String::new();
     for p in t.as_array().unwrap() {
@@ -513,7 +538,7 @@ fn expand_tpl(t: &Value, feats: &[String]) -> Option<String> {
             "type" => s.push('0'),
             k => {
                 let v = feats.get(p["i"].as_u64().unwrap() as usize).map_or("*", |x| x.as_str());
-                if k == "opt" && v == "*" {
+                if k == "opt" && v == "*" && !force {
                     return None;
                 }
                 s.push_str(v);
@@ -576,6 +601,12 @@ pub fn gen_mecab_case(rng_in: &mut Rng) -> MecabCase {
             let w8 = match rng.below(6) { 0 => 0, 1 => rng.range(-3, 3), 2 => 8 * rng.range(-500, 500), _ => rng.range(-4000, 4000) };
             match (le, re) {
                 (Some(le), Some(re)) if rng.chance(4, 5) && r.0 != 0 && l.0 != 0 => lines.push((w8, le, re)),
+                (le, re) if (le.is_none() || re.is_none()) && rng.chance(1, 2) => {
+                    // the text a suppressed template WOULD have produced: such a line matches no id pair
+                    let lf = expand_tpl_ext(&t["left"][k], &r.1, true).unwrap_or_default();
+                    let rf = expand_tpl_ext(&t["right"][k], &l.1, true).unwrap_or_default();
+                    lines.push((w8, lf, rf));
+                }
                 _ => lines.push((w8, format!("miss{}", rng.below(3)), "x".into())),
             }
         }
